@@ -364,9 +364,21 @@ def run_c19(prop, cfg, tier, seed):
     def pipeline(job):
         f, fl = job
         outs = set()
+        last = None
         for _ in range(reps):
             q = subprocess.run([pig] + fl + [os.path.join(emit, f)], stdin=subprocess.DEVNULL, stdout=subprocess.PIPE, stderr=subprocess.PIPE, timeout=120)
             outs.add(hashlib.sha256(q.stdout + b"|" + q.stderr + b"|" + str(q.returncode).encode()).hexdigest())
+            last = q
+        # the output is a function of grammar and flags only: written with -o over an existing (longer) file it is the
+        # same bytes as on stdout
+        if last is not None and last.returncode == 0:
+            of = os.path.join(emit, f + "." + hashlib.md5(" ".join(fl).encode()).hexdigest()[:6] + ".out.go")
+            open(of, "wb").write(b"// stale content of an earlier generation\n" * 20000)
+            q = subprocess.run([pig] + fl + ["-o", of, os.path.join(emit, f)], stdin=subprocess.DEVNULL, stdout=subprocess.PIPE, stderr=subprocess.PIPE, timeout=120)
+            got = open(of, "rb").read() if os.path.exists(of) else b""
+            os.remove(of)
+            if q.returncode != 0 or got != last.stdout:
+                return f, fl + ["-o <existing file>"], 2
         return f, fl, len(outs)
     with ThreadPoolExecutor(max_workers=max(2, core.NCPU)) as ex:
         for f, fl, n in ex.map(pipeline, [(f, fl) for f in files for fl in flagsets]):
